@@ -19,11 +19,11 @@ class C12(Prop):
     model_targets = ["theories/Websockets/ShimCheck.vo"]
     technique = "Coq LTS of the shim handlers as interleavable programs: invariant proof that the guarded Close/Send never panic for any number of racing calls and any interleaving, computed witnesses for the repaired defects; exact sequential status semantics; bounded-exhaustive sequential runs and repeated concurrent runs of the real handlers under the race detector"
     level_text = ("C12_no_panic proves for any number of close and data calls racing on one session, any queue capacity and any interleaving of their atomic actions with the writer goroutine and the backend that the handlers never send on or close a closed channel; "
-                  "C12_replies that every answer is 200 or 400; C12_sharp_double_close / C12_sharp_data_vs_close are computed schedules on the model of the code before the repair that do panic. The real handlers are run on every call sequence up to length 3 (4 in the thorough tier) "
+                  "C12_replies that every answer is 200 or 400; C12_bounded_work / C12_progress / C12_progress_when_backend_gone that the calls take a bounded number of actions in any interleaving and that an unanswered call can always take its next action unless it waits for room in a full queue whose writer can still take a message (no wedge caused by the handlers); C12_sharp_double_close / C12_sharp_data_vs_close are computed schedules on the model of the code before the repair that do panic. The real handlers are run on every call sequence up to length 3 (4 in the thorough tier) "
                   "over 14 call kinds (valid, unknown, closed, malformed) and must answer exactly as the sequential model; racing pairs/triples on one session are repeated under the race detector with a recover wrapper (a panic there would kill the agent); the 20 s poll time-out is exercised once.")
     level_note = ("Trusted: Coq kernel, harness, race detector. Modelled, not verified: sync.Map, Go channel semantics (send on / close of a closed channel panics; a full channel blocks), gorilla/websocket. "
                   "PARTIAL: 'every call gets an answer' is proved as absence of panic and checked as absence of hangs on the explored schedules; a backend that stops reading its socket can still stall data/close calls (back-pressure), which no bounded run or safety theorem excludes.")
-    partial_note = "liveness (every call eventually answers) is checked on the explored runs only; the theorems are safety properties (no panic, reply codes)"
+    partial_note = "the handlers never leave a call hanging by themselves (C12_bounded_work, C12_progress*); a writer goroutine blocked on a backend that neither reads nor closes is outside the model, and wall-clock answers (408 after 20 s) are observed, not proved"
     assumptions = ["handler steps are atomic at the granularity of one sync.Map / channel / context operation", "the mutex added by the repair makes Close and SendClientMessage mutually exclusive"]
 
     def harness(self, ctx):
